@@ -238,11 +238,13 @@ class NativeEval(object):
         raise NotEvaluable("function " + name)
 
 
-def eval_clause(text, env, old_env=None, model="R", pre_ids=None, natives=None):
-    """True / False / None (not evaluable natively)."""
+def eval_clause(text, env, old_env=None, model="R", pre_ids=None, natives=None, strict=False):
+    """True / False / None (not evaluable natively).  strict=False: comparisons are lenient towards the clause
+    holding (postconditions: only robust violations count); strict=True: lenient towards it failing
+    (preconditions: only inputs that satisfy them robustly are used)."""
     node = ast.parse(text.strip(), mode="eval").body
     try:
-        return bool(NativeEval(dict(env), old_env, model, pre_ids, natives).ev(node, True))
+        return bool(NativeEval(dict(env), old_env, model, pre_ids, natives).ev(node, not strict))
     except NotEvaluable:
         return None
 
